@@ -91,3 +91,19 @@ def nontrivial_scripts(case, obs):
 
 FAMILIES.append(Family("scripts", gen_scripts, oplists.run_case, oplists.model_expr, oplists.model_obs, oracle_scripts, nontrivial_scripts,
                        imports=["Model.Core", "Model.Prog"], project=oplists.project, describe=oplists.describe, shard=30, coq_shard=60))
+
+
+# ---- actions inside generators: one truthful end when the block is left by close()/throw() (generator model of C15) ----
+from props import C15 as _c15
+
+
+def gen_generators(rng, tier):
+    cases = [c for c in _c15.gen_scripts(rng, tier)
+             if any(s[0] == "resume" and s[2][0] in ("close", "throw") for s in c["script"])]
+    return cases[:80 if tier == "quick" else 2500]
+
+
+FAMILIES.append(Family("generators", gen_generators, _c15.impl_scripts, _c15.model_scripts, _c15.model_obs_scripts,
+                       _c15.oracle_scripts, _c15.nontrivial_scripts, imports=["Model.Generators"],
+                       project=_c15.project_scripts, shrink=_c15.shrink_scripts, describe=_c15.describe_scripts,
+                       shard=100, coq_shard=30))
